@@ -2,7 +2,9 @@ package mc
 
 import (
 	"fmt"
+	"os"
 	"sort"
+	"strings"
 	"time"
 
 	"verif/rt"
@@ -19,6 +21,15 @@ type SchedConfig struct {
 	MaxSteps int
 	// SwitchCost: see rt.Options.
 	SwitchCost int
+	// StateCache prunes an execution at the first choice point whose happens-before state key (rt/hb.go) has already
+	// been expanded with at least the same remaining deviation budget: everything reachable from there within the
+	// budget has been (or is being) explored from the earlier visit. The set of explored behaviours is the same as
+	// without the cache; only re-exploration of equivalent interleavings is cut.
+	StateCache bool
+	// NoStateCache switches the cache off even when it is on by default (CacheDefault).
+	NoStateCache bool
+	// Unbounded explores every schedule (no deviation bound); only sensible together with StateCache. Bound is ignored.
+	Unbounded bool
 }
 
 // SchedResult is what an exploration covered.
@@ -34,25 +45,135 @@ type SchedResult struct {
 	Sample         []string // trace of the first execution
 	EngineError    string
 	MaxChoices     int
+	Pruned         int    // executions cut at an already expanded state (StateCache)
+	States         int    // distinct state keys expanded (StateCache)
+	CacheDiff      string // VERIF_DIFF: summary of the cache self-test for this exploration
 }
 
-// DFS explores all choice vectors of cost <= Bound, iterating the bound 0,1,...
+// CacheDefault: the happens-before state cache is on for every exploration unless VERIF_NOCACHE is set (or the
+// configuration opts out).
+var CacheDefault = os.Getenv("VERIF_NOCACHE") == ""
+
+// DFS explores all choice vectors of cost <= Bound, iterating the bound 0,1,... With VERIF_DIFF set it is a
+// self-test of the state cache: the exploration is run without and with the cache and the two must observe the same
+// set of (outcome class, oracle verdicts, harness event labels) observations; a difference is an engine error.
 func DFS(cfg SchedConfig) SchedResult {
+	cfg.StateCache = !cfg.NoStateCache && (cfg.StateCache || CacheDefault)
+	if os.Getenv("VERIF_DIFF") == "" || !cfg.StateCache {
+		return dfs(cfg)
+	}
+	full := func(x *rt.Exec) string {
+		var sb strings.Builder
+		if cfg.Outcome != nil {
+			sb.WriteString(cfg.Outcome(x))
+		}
+		fmt.Fprintf(&sb, " | crash=%v deadlock=%v livelock=%v blocked=%v |", x.Crash != "", x.Deadlock, x.Livelock, x.Blocked)
+		if cfg.Check != nil {
+			var sigs []string
+			for _, f := range cfg.Check(x) {
+				sigs = append(sigs, f.Sig)
+			}
+			sort.Strings(sigs)
+			sb.WriteString(strings.Join(sigs, ","))
+		}
+		sb.WriteString(" |")
+		for _, e := range x.Events {
+			sb.WriteString(" " + e.Label)
+		}
+		return sb.String()
+	}
+	// every run gets the whole time budget of the exploration; the comparison is made at the largest bound that the
+	// plain search completes within it
+	var dur time.Duration
+	if !cfg.Deadline.IsZero() {
+		dur = time.Until(cfg.Deadline)
+	}
+	fresh := func(c SchedConfig) SchedConfig {
+		if dur > 0 {
+			c.Deadline = time.Now().Add(dur)
+		}
+		return c
+	}
+	plain, cached := cfg, cfg
+	plain.StateCache, plain.Outcome, plain.Check = false, full, nil
+	cached.Outcome, cached.Check = full, nil
+	a := SchedResult{BoundCompleted: -1}
+	top := cfg.Bound
+	if cfg.Unbounded {
+		top = 0
+	}
+	for k := 0; k <= top; k++ {
+		plain.Bound = k
+		r := dfs(fresh(plain))
+		if !r.Exhaustive {
+			break
+		}
+		a = r
+	}
+	if a.BoundCompleted < 0 {
+		res := dfs(fresh(cfg))
+		res.CacheDiff = "the search without the cache did not complete any bound within the budget: nothing compared"
+		return res
+	}
+	cached.Bound, cached.Unbounded = a.BoundCompleted, cfg.Unbounded
+	b := dfs(fresh(cached))
+	res := dfs(fresh(cfg))
+	miss, extra := 0, 0
+	example := ""
+	for k := range a.Outcomes {
+		if b.Outcomes[k] == 0 {
+			miss++
+			example = k
+		}
+	}
+	for k := range b.Outcomes {
+		if a.Outcomes[k] == 0 {
+			extra++
+			example = k
+		}
+	}
+	complete := b.Exhaustive && a.EngineError == "" && b.EngineError == ""
+	res.CacheDiff = fmt.Sprintf("bound completed %d/%d: %d executions, %d observations without the cache; %d executions (+%d pruned, %d states), %d observations with it; missing %d, extra %d",
+		a.BoundCompleted, b.BoundCompleted, a.Execs, len(a.Outcomes), b.Execs, b.Pruned, b.States, len(b.Outcomes), miss, extra)
+	fmt.Printf("CACHE-DIFF %s: %s\n", cfg.Name, res.CacheDiff)
+	if complete && (miss > 0 || extra > 0) && res.EngineError == "" {
+		res.EngineError = fmt.Sprintf("state cache self-test failed: %d observations missing and %d extra with the cache, e.g. %q", miss, extra, example)
+	}
+	return res
+}
+
+func dfs(cfg SchedConfig) SchedResult {
 	res := SchedResult{BoundCompleted: -1, Outcomes: map[string]int{}}
 	failSeen := map[string]bool{}
+	cache := map[rt.Key]int{}
 	var explore func(prefix []int, bound int, exact bool) bool
 	explore = func(prefix []int, bound int, exact bool) bool {
 		if !cfg.Deadline.IsZero() && time.Now().After(cfg.Deadline) {
 			return false
 		}
-		x := rt.Run(rt.Options{Prefix: prefix, MaxSteps: cfg.MaxSteps, SwitchCost: cfg.SwitchCost}, cfg.Body)
+		o := rt.Options{Prefix: prefix, MaxSteps: cfg.MaxSteps, SwitchCost: cfg.SwitchCost}
+		if cfg.StateCache {
+			o.Visit = func(i int, k rt.Key, cost int) bool {
+				rem := bound - cost
+				if v, ok := cache[k]; ok && v >= rem {
+					return true
+				}
+				cache[k] = rem
+				return false
+			}
+		}
+		x := rt.Run(o, cfg.Body)
 		if x.Aborted != "" {
 			res.EngineError = x.Aborted + fmt.Sprintf(" (prefix %v)", prefix)
 			return false
 		}
 		cost := x.Cost()
+		if x.Pruned {
+			res.Pruned++
+			res.Steps += x.Steps
+		}
 		// with iterative bounding, executions of lower cost were already counted in an earlier iteration
-		if !exact || cost == bound {
+		if !x.Pruned && (!exact || cost == bound) {
 			res.Execs++
 			res.Steps += x.Steps
 			res.ChoicePoints += len(x.Choices)
@@ -101,7 +222,18 @@ func DFS(cfg SchedConfig) SchedResult {
 			return res
 		}
 	}
+	if cfg.Unbounded {
+		ok := explore(nil, 1<<30, false)
+		res.ExecsPerBound = []int{res.Execs}
+		res.States = len(cache)
+		if ok {
+			res.Exhaustive = true
+			res.BoundCompleted = 1 << 30
+		}
+		return res
+	}
 	for b := 0; b <= cfg.Bound; b++ {
+		clear(cache)
 		n0 := res.Execs
 		if !explore(nil, b, true) {
 			res.ExecsPerBound = append(res.ExecsPerBound, res.Execs-n0)
@@ -109,6 +241,7 @@ func DFS(cfg SchedConfig) SchedResult {
 		}
 		res.ExecsPerBound = append(res.ExecsPerBound, res.Execs-n0)
 		res.BoundCompleted = b
+		res.States = len(cache)
 	}
 	res.Exhaustive = true
 	return res
